@@ -42,7 +42,11 @@ def default_request_sampler(
             environment.config.sim.timestep_duration_seconds,
         )
     )
-    possible_links = list(simulation_state.road_network.link_helper.links.values())
+    # sort the links: a seeded random.choice is only reproducible over a list whose order does
+    # not depend on the hash order of the immutables.Map holding the links
+    possible_links = sorted(
+        simulation_state.road_network.link_helper.links.values(), key=lambda l: l.link_id
+    )
 
     id_counter = 0
     while len(requests) < count:
